@@ -2,7 +2,7 @@
 //! `tok.equiv` (proved sound for hard tokens) judges every (input, output) pair the real formatter
 //! produces over the same fixed, measured universe of cases as C02; the output must also parse
 //! (it is formatted once more and must not be reported as a parse error).
-use std::collections::HashSet;
+use std::collections::{HashMap, HashSet};
 use std::path::Path;
 use std::time::Duration;
 
@@ -35,21 +35,21 @@ pub fn validator_cfg(cfg: &[(String, String)]) -> String {
     )
 }
 
-pub fn load_dirty() -> HashSet<String> {
-    std::fs::read_to_string("corpus/c01_dirty.txt").or_else(|_| std::fs::read_to_string("/verif/corpus/c01_dirty.txt")).unwrap_or_default().lines().filter(|l| !l.trim().is_empty() && !l.starts_with('#')).map(|l| l.split('\t').next().unwrap_or("").trim().to_string()).collect()
+/// corpus/c01_dirty.txt: element -> id of the known finding it shows (`?` = not examined yet)
+pub fn load_dirty() -> HashMap<String, String> {
+    let text = std::fs::read_to_string("corpus/c01_dirty.txt").or_else(|_| std::fs::read_to_string("/verif/corpus/c01_dirty.txt")).unwrap_or_default();
+    let mut m = HashMap::new();
+    for l in text.lines() {
+        if l.trim().is_empty() || l.starts_with('#') {
+            continue;
+        }
+        let cols: Vec<&str> = l.split('\t').collect();
+        let id = cols.first().map(|s| s.trim().to_string()).unwrap_or_default();
+        let class = cols.get(2).map(|s| s.trim().to_string()).filter(|s| !s.is_empty()).unwrap_or_else(|| "?".to_string());
+        m.insert(id, class);
+    }
+    m
 }
-
-/// rejected elements that were examined by hand and are genuine defects of the pinned tree: (element, probe id)
-const VERIFIED: &[(&str, &str)] = &[
-    ("tests/target/impl.rs|where_single_line=true", "C01-where-single-line"),
-    ("tests/target/comments-fn.rs|where_single_line=true", "C01-where-single-line"),
-    ("tests/target/cfg_attribute_in_where.rs|normalize_doc_attributes=true", "C01-doc-attr-swallows-bound"),
-    ("tests/target/issue-1096.rs|normalize_comments=true", "C01-normalize-comments-semicolon"),
-    ("tests/target/configs/indent_style/block_call.rs|use_try_shorthand=true", "C01-try-two-args"),
-    ("tests/source/configs/indent_style/block_call.rs|use_try_shorthand=true", "C01-try-two-args"),
-    ("tests/target/configs/reorder_impl_items/false.rs|reorder_impl_items=true", "C01-reorder-impl-items"),
-    ("tests/target/impls.rs|reorder_impl_items=true", "C01-reorder-impl-items"),
-];
 
 struct Judged {
     id: String,
@@ -57,6 +57,12 @@ struct Judged {
     detail: String,
     request: String,
     nontrivial: bool,
+}
+
+/// a run inside the property's quantifier: nothing was REPORTED (an internal macro-rewrite failure - the macro call is
+/// copied verbatim, nothing is printed, the exit status is 0 - is not a report)
+fn accepted(r: &pool::FmtOut) -> bool {
+    r.status == Status::Ok && !(r.flags[0] || r.flags[1] || r.flags[2] || r.flags[4] || r.flags[5] || r.flags[6])
 }
 
 /// formats every case, validates clean outputs with the Lean validator, re-parses them
@@ -67,7 +73,7 @@ fn judge(cases: &[Case], timeout: Duration) -> Vec<Judged> {
     let mut reqs = vec![];
     let mut jobs2 = vec![];
     for (i, r) in r1.iter().enumerate() {
-        if r.clean() && !r.out.is_empty() {
+        if accepted(r) && !r.out.is_empty() {
             idx.push(i);
             reqs.push(format!("tok.equiv {} {} {}", validator_cfg(&cases[i].cfg), encode_tokens(&cases[i].src, false), encode_tokens(&r.out, false)));
             jobs2.push(Job { src: r.out.clone(), cfg: cases[i].cfg.clone(), file_lines: None });
@@ -115,13 +121,15 @@ const EXCLUDED: &[(&str, &str)] = &[
     ("tests/source/5131_one.rs", "F6-C01"),
     ("tests/source/configs/reorder_impl_items/true.rs", "C01-reorder-impl-items"),
     ("tests/source/issue-2863.rs", "C01-reorder-impl-items"),
-    ("tests/source/configs/doc_comment_code_block_width/50.rs", "C01-doc-code"),
-    ("tests/source/configs/doc_comment_code_block_width/100_greater_max_width.rs", "C01-doc-code"),
 ];
 
 fn excluded(id: &str) -> Option<&'static str> {
     let fx = id.split('|').next().unwrap_or("");
     EXCLUDED.iter().find(|(f, _)| *f == fx).map(|(_, p)| *p)
+}
+
+fn fam_of(id: &str) -> String {
+    if id.starts_with("gen:") { "generated".into() } else { family_of(id) }
 }
 
 fn all_with_excluded_ids(progs: &[corpus::Program]) -> Vec<Case> {
@@ -137,19 +145,36 @@ pub fn run(tier: &str, seed: u64, out: &Path) -> i32 {
     let dirty = load_dirty();
     o.count_n("universe", all.len() as u64);
     o.count_n("universe_dirty_listed", dirty.len() as u64);
+    o.count_n("universe_dirty_unexamined", dirty.values().filter(|c| *c == "?").count() as u64);
     let timeout = Duration::from_secs(if tier == "quick" { 10 } else { 30 });
     if tier == "sweep" {
-        for j in judge(&all, Duration::from_secs(30)) {
-            if j.verdict == "not-equivalent" || j.verdict == "output-does-not-parse" {
-                println!("{}\t{}\t{}", j.id, j.verdict, show_diff(&j.detail));
+        // C01_SWEEP = fix (fixture universe, default) | gen (generated family) | all
+        let which = std::env::var("C01_SWEEP").unwrap_or_else(|_| "fix".into());
+        let mut cases: Vec<Case> = vec![];
+        if which == "fix" || which == "all" {
+            cases.extend(all.iter().cloned());
+        }
+        if which == "gen" || which == "all" {
+            cases.extend(crate::c01gen::universe());
+        }
+        let mut n_ok = 0usize;
+        let mut n_skip = 0usize;
+        for chunk in cases.chunks(20000) {
+            for j in judge(chunk, Duration::from_secs(30)) {
+                match j.verdict {
+                    "not-equivalent" | "output-does-not-parse" => println!("{}\t{}\t{}", j.id, j.verdict, show_diff(&j.detail)),
+                    "ok" => n_ok += 1,
+                    _ => n_skip += 1,
+                }
             }
         }
+        eprintln!("sweep {}: {} cases, {} ok, {} skipped", which, cases.len(), n_ok, n_skip);
         return 0;
     }
     if tier == "show" {
         // C01_SHOW=<element id>[;<element id>…]: writes input, output and configuration of the elements to <out>/ and prints the verdicts
         let want: Vec<String> = std::env::var("C01_SHOW").unwrap_or_default().split(';').map(|s| s.trim().to_string()).filter(|s| !s.is_empty()).collect();
-        let sel: Vec<Case> = all_with_excluded_ids(&progs).into_iter().filter(|c| want.iter().any(|w| *w == c.id)).collect();
+        let sel: Vec<Case> = all_with_excluded_ids(&progs).into_iter().chain(crate::c01gen::universe()).filter(|c| want.iter().any(|w| *w == c.id)).collect();
         let jobs1: Vec<Job> = sel.iter().map(|c| Job { src: c.src.clone(), cfg: c.cfg.clone(), file_lines: None }).collect();
         let r1 = pool::run_jobs(&jobs1, jobs(), Duration::from_secs(30));
         let js = judge(&sel, Duration::from_secs(30));
@@ -164,14 +189,20 @@ pub fn run(tier: &str, seed: u64, out: &Path) -> i32 {
         return 0;
     }
     let mut rng = Rng::new(seed ^ 0xc01);
-    let clean: Vec<&Case> = all.iter().filter(|c| !dirty.contains(&c.id)).collect();
+    let gen_all = crate::c01gen::universe();
+    o.count_n("universe_generated", gen_all.len() as u64);
+    let clean: Vec<&Case> = all.iter().filter(|c| !dirty.contains_key(&c.id)).collect();
+    let gen_clean: Vec<&Case> = gen_all.iter().filter(|c| !dirty.contains_key(&c.id)).collect();
     let chosen: Vec<Case> = if tier == "thorough" {
-        clean.iter().map(|c| (*c).clone()).collect()
+        clean.iter().chain(gen_clean.iter()).map(|c| (*c).clone()).collect()
     } else {
         let mut v: Vec<Case> = clean.iter().filter(|c| c.id.ends_with("|base")).map(|c| (*c).clone()).collect();
         let rest: Vec<&&Case> = clean.iter().filter(|c| !c.id.ends_with("|base")).collect();
         for _ in 0..5000usize.min(rest.len()) {
             v.push((**rng.pick(&rest)).clone());
+        }
+        for _ in 0..3000usize.min(gen_clean.len()) {
+            v.push((**rng.pick(&gen_clean)).clone());
         }
         v
     };
@@ -179,7 +210,7 @@ pub fn run(tier: &str, seed: u64, out: &Path) -> i32 {
     let mut programs = 0u64;
     let mut distinct = HashSet::new();
     for (c, j) in chosen.iter().zip(res.iter()) {
-        o.count(&format!("{}:{}", family_of(&c.id), j.verdict));
+        o.count(&format!("{}:{}", fam_of(&c.id), j.verdict));
         match j.verdict {
             "ok" => {
                 programs += 1;
@@ -196,29 +227,27 @@ pub fn run(tier: &str, seed: u64, out: &Path) -> i32 {
             _ => {}
         }
     }
-    // listed dirty elements as probes grouped by family
-    let dirty_cases: Vec<Case> = all.iter().filter(|c| dirty.contains(&c.id)).cloned().collect();
+    // the enumerated dirty elements: probes grouped by the id of the defect they show
+    let dirty_cases: Vec<Case> = all.iter().chain(gen_all.iter()).filter(|c| dirty.contains_key(&c.id)).cloned().collect();
     let dres = judge(&dirty_cases, timeout);
     let mut by_family: std::collections::BTreeMap<String, (usize, usize, String)> = Default::default();
     for (c, j) in dirty_cases.iter().zip(dres.iter()) {
-        let pid = match VERIFIED.iter().find(|(e, _)| *e == c.id) {
-            Some((_, p)) => p.to_string(),
-            None => {
-                o.count(&format!("excluded-unclassified:{}", j.verdict));
-                continue;
-            }
-        };
+        let pid = dirty.get(&c.id).cloned().unwrap_or_else(|| "?".into());
+        if pid == "?" {
+            o.count(&format!("excluded-unclassified:{}", j.verdict));
+            continue;
+        }
         let e = by_family.entry(pid).or_insert((0, 0, String::new()));
         e.0 += 1;
         if j.verdict == "not-equivalent" || j.verdict == "output-does-not-parse" {
             e.1 += 1;
             if e.2.is_empty() {
-                e.2 = format!("{}: {}", c.id, show_diff(&j.detail));
+                e.2 = format!("{} [{}]: {}", c.id, j.verdict, show_diff(&j.detail));
             }
         }
     }
     for (fam, (n, bad, ex)) in by_family {
-        o.probes.push(json!({"id": fam, "fails": bad > 0, "what": format!("{} of {} verified elements rejected by the validator, e.g. {}", bad, n, ex)}));
+        o.probes.push(json!({"id": fam, "fails": bad > 0, "what": format!("{} of {} enumerated elements rejected, e.g. {}", bad, n, ex)}));
     }
     // fixtures excluded wholesale: one probe per known reason
     let eres = judge(&excluded_base, timeout);
